@@ -127,6 +127,10 @@ pub fn handle(op: &str, a: &[&str]) -> Option<String> {
             v.set_one();
             ok_ri(&v)
         }
+        // api-coverage: the INHERENT associated consts `BigUint::ZERO` / `BigInt::ZERO` (the trait const
+        // `ConstZero::ZERO`, `zero()` and `default()` forward to them)
+        ("u.inherent_zero", []) => ok_ru(&BigUint::ZERO),
+        ("i.inherent_zero", []) => ok_ri(&BigInt::ZERO),
         ("sign.neg", [s]) => show_sign(-sign_arg(s)?).to_string(),
         ("sign.mul", [s, t]) => show_sign(sign_arg(s)? * sign_arg(t)?).to_string(),
         _ => return None,
